@@ -57,6 +57,7 @@ template <class P, class Prm> static result apply_only(const problem &pb, const 
         P p(*pb.A, prm);
         amgcl::backend::numa_vector<double> f(pb.rhs), y(pb.rhs.size());
         p.apply(f, y); r.px.vec(y.data(), y.size()); r.it = 0;
+        r.describe(p);
     } catch (const std::exception &e) { r.threw = true; r.exc = e.what(); }
     return r;
 }
@@ -77,6 +78,23 @@ static void precond_classes() {
         ptree t; t.put("type", "damped_jacobi"); t.put("damping", 0.625); precond_class<T>("relaxation", "damped_jacobi", t, p); }
     {   typedef amgcl::relaxation::as_preconditioner<B, amgcl::relaxation::spai0> T; T::params p;
         ptree t; precond_class<T>("relaxation", "spai0(default)", t, p); }
+#define C14_RELAX_DEFAULT(r) { typedef amgcl::relaxation::as_preconditioner<B, amgcl::relaxation::r> T; T::params p; \
+        ptree t; t.put("type", #r); precond_class<T>("relaxation", #r, t, p); }
+    C14_RELAX_DEFAULT(gauss_seidel) C14_RELAX_DEFAULT(iluk) C14_RELAX_DEFAULT(ilup) C14_RELAX_DEFAULT(ilut)
+    C14_RELAX_DEFAULT(spai1) C14_RELAX_DEFAULT(chebyshev)
+    {   // near-nullspace vectors travel as a pointer through the tree
+        typedef amgcl::amg<B, amgcl::coarsening::smoothed_aggregation, amgcl::relaxation::spai0> T;
+        for (int m = 0; m < (int)problems.size(); ++m) {
+            size_t n = problems[m].rhs.size();
+            std::vector<double> Bv(2 * n); for (size_t i = 0; i < n; ++i) { Bv[2 * i] = 1; Bv[2 * i + 1] = (double)(i % 7) - 3; }
+            T::params p; p.coarse_enough = 20; p.coarsening.nullspace.cols = 2; p.coarsening.nullspace.B = Bv;
+            result a = apply_only<T>(problems[m], p);
+            ptree rt; rt.put("coarse_enough", 20); rt.put("coarsening.type", "smoothed_aggregation"); rt.put("relax.type", "spai0");
+            rt.put("coarsening.nullspace.cols", 2); rt.put("coarsening.nullspace.rows", n); rt.put("coarsening.nullspace.B", Bv.data());
+            result b = apply_only<amgcl::runtime::preconditioner<B>>(problems[m], rt);
+            vr::obj o; o.str("k", "equivp").str("cls", "amg").str("what", "nullspace").i("mat", m);
+            a.json(o, "_t"); b.json(o, "_r"); vr::emit(o.done());
+        } }
     {   typedef amgcl::preconditioner::dummy<B> T; T::params p; ptree t; precond_class<T>("dummy", "dummy", t, p); }
     {   typedef amgcl::make_solver<amgcl::amg<B, amgcl::coarsening::smoothed_aggregation, amgcl::relaxation::spai0>, amgcl::solver::cg<B>> T;
         T::params p; p.solver.maxiter = 3; p.precond.coarse_enough = 20; p.precond.npre = 2;
